@@ -299,7 +299,7 @@ func (c c08Cfg) apply(r *rig) {
 
 func TestVerifC08Headers(t *testing.T) {
 	L := ev.Begin("C08", "c08-headers", "exploration",
-		"header-related configuration (client-ip header none/custom/X-Real-Ip/X-Forwarded-For x TLS header none/set (canonical and non-canonical spellings) x LocalIP/HSTS variants x route host option none/name/dst) x connection plain/TLS (cipher suite and version varying from case to case) x every subset of 8 fabio-managed headers forged by the client (2^8) plus repeated, lower-case, empty and blank-line variants x Host with/without port and as IPv6 literal x IPv4/IPv6 peer x a Connection header that names the managed headers as hop-by-hop (on one line, behind a keep-alive line, one lower-case name per line), served by the real HTTPProxy to a recording upstream; plus redirect routes (to https and http targets) on plain and TLS connections; oracle = the six clauses of the statement. non-trivial = at least one forged header or a TLS connection")
+		"header-related configuration (client-ip header none/custom/X-Real-Ip/X-Forwarded-For x TLS header none/set (canonical and non-canonical spellings) x LocalIP/HSTS variants x route host option none/name/dst) x connection plain/TLS (cipher suite and version varying from case to case) x every subset of 8 fabio-managed headers forged by the client (2^8) plus repeated, lower-case, empty and blank-line variants x Host with/without port, with the default port of either scheme written out, and as IPv6 literal x IPv4/IPv6 peer x a Connection header that names the managed headers as hop-by-hop (on one line, behind a keep-alive line, one lower-case name per line), served by the real HTTPProxy to a recording upstream; plus redirect routes (to https and http targets) on plain and TLS connections; oracle = the six clauses of the statement. non-trivial = at least one forged header or a TLS connection")
 	cfgs := c08Configs()
 	sets := c08HeaderSets(true)
 	type job struct {
@@ -311,16 +311,20 @@ func TestVerifC08Headers(t *testing.T) {
 		hop  bool
 	}
 	var jobs []job
+	combo := 0
 	for _, c := range cfgs {
 		for _, conn := range []c08Conn{c08Plain, c08TLS} {
 			for _, v := range sets {
-				for hi, h := range []string{"client.example", "client.example:8080", "[2001:db8::5]:8080", "[2001:db8::5]"} {
+				for hi, h := range []string{"client.example", "client.example:8080", "[2001:db8::5]:8080", "[2001:db8::5]", "client.example:80", "client.example:443", "CLIENT.example:80"} {
 					peer := "10.9.8.7"
 					if hi%2 == 1 {
 						peer = "2001:db8::1"
 					}
-					if hi >= 2 && (len(jobs)%7 != 0) {
-						continue // IPv6 literal hosts: every seventh combination
+					if hi == 0 {
+						combo++
+					}
+					if hi >= 2 && (combo+hi)%5 != 0 {
+						continue // IPv6 literal hosts and hosts that name a default port: each in every fifth combination
 					}
 					jobs = append(jobs, job{c, conn, v, h, peer, false})
 					if len(jobs)%5 == 0 {
